@@ -15,7 +15,22 @@ namespace {
 
 const std::vector<std::string> kAlphabet = {"a", " ", ",", "-", "1", "\xCE\xB1", "\xE2\x84\xAC", "\xF0\xA0\x9C\x8E"};
 const std::vector<std::string> kWide = {"a", "b", "Z", " ", "\t", "\n", ",", "-", "0", "1", "9", "|", "@", "{", "}", "\xCE\xB1", "\xD0\xB5", "\xE2\x84\xAC",
-                                        "\xE2\x88\x80", "\xF0\xA0\x9C\x8E", "\xF0\x9F\x98\x80", "\x7F", "\xC2\x80", "\xEF\xBF\xBF"};
+                                        "\xE2\x88\x80", "\xF0\xA0\x9C\x8E", "\xF0\x9F\x98\x80", "\x7F", "\xC2\x80", "\xEF\xBF\xBF",
+                                        "\xDF\xBF", "\xE0\xA0\x80", "\xE0\xA4\x95", "\xE0\xBF\xBF", "\xE1\x80\x80", "\xED\x9F\xBF", "\xEE\x80\x80", "\xF0\x90\x80\x80", "\xF4\x8F\xBF\xBF"};
+
+// two code points (first and last) for every possible lead byte of well-formed UTF-8: 0xC2..0xDF, 0xE0..0xEF (0xED without
+// the surrogates), 0xF0..0xF4 - the size of a symbol is decided from its lead byte, so every lead byte is its own case
+const std::vector<std::string>& leadAlphabet() {
+  static const std::vector<std::string> v = [] {
+    std::vector<std::string> r{"a"};
+    auto add = [&](std::initializer_list<int> b) { std::string s; for (int x : b) s.push_back(static_cast<char>(x)); r.push_back(s); };
+    for (int l = 0xC2; l <= 0xDF; ++l) { add({l, 0x80}); add({l, 0xBF}); }
+    for (int l = 0xE0; l <= 0xEF; ++l) { add({l, l == 0xE0 ? 0xA0 : 0x80, 0x80}); add({l, l == 0xED ? 0x9F : 0xBF, 0xBF}); }
+    for (int l = 0xF0; l <= 0xF4; ++l) { add({l, l == 0xF0 ? 0x90 : 0x80, 0x80, 0x80}); add({l, l == 0xF4 ? 0x8F : 0xBF, 0xBF, 0xBF}); }
+    return r;
+  }();
+  return v;
+}
 
 struct Text {
   std::vector<std::string> cps;
@@ -118,6 +133,11 @@ Verdict checkText(Ctx& c, const Text& t) {
 
 Verdict propUtf8Small(Ctx& c) { return checkText(c, genText(c, true)); }
 Verdict propUtf8Random(Ctx& c) { return checkText(c, genText(c, false)); }
+Verdict propUtf8Lead(Ctx& c) {  // every lead byte, alone, doubled, and next to every other one
+  Text t; const int n = c.ipick(0, 2);
+  for (int i = 0; i < n; ++i) t.cps.push_back(c.oneof(leadAlphabet()));
+  return checkText(c, t);
+}
 
 // ------------------------------------------------------------------------------------------------
 // interval algebra
@@ -223,6 +243,7 @@ Verdict propMergeList(Ctx& c) {
 int main(int argc, char** argv) {
   std::vector<pbt::Prop> props;
   props.push_back({"utf8_exhaustive", propUtf8Small, 0, 0, true, false, "all strings of <=4 code points over {a,space,comma,-,1,U+03B1,U+212C,U+2070E}; non-trivial = contains a multi-byte code point"});
+  props.push_back({"utf8_lead_bytes", propUtf8Lead, 0, 0, true, false, "all strings of <=2 code points over the first and last code point of every UTF-8 lead byte (0xC2..0xF4) and 'a'"});
   props.push_back({"range_exhaustive", propRangeSmall, 0, 0, true, false, "all pairs of ranges with start<=finish and ends in [-1,6]; non-trivial = not disjoint-and-far"});
   props.push_back({"utf8_random", propUtf8Random, 8000, 200000, false, false, "random strings of <=64 code points over 24 symbols (1-4 bytes)"});
   props.push_back({"range_random", propRangeRandom, 30000, 1000000, false, false, "random range pairs in windows of +-12 and +-1000"});
